@@ -126,7 +126,7 @@ ParseRfc3339(cp) ==
 TimestampFn(v) ==
   IF v.t # "str" THEN E({"type", "fnerr"})
   ELSE LET p == ParseRfc3339(v.cp) IN
-       IF ~p.ok THEN E({"fnerr"})
+       IF ~p.ok THEN E({"fnerr", "type", "overflow"})
        ELSE IF p.lax THEN D(R(VTs(p.n, p.off))) ELSE R(VTs(p.n, p.off))
 
 \* does the text denote exactly this instant and offset?  (used for string(timestamp): the rendering
